@@ -346,6 +346,10 @@ var c19Errors = []c19Err{
 	{"unterminated-string-nul", "lex", KwPrint + " \"abc\x00;", true},
 	{"stray-nul", "lex", KwPrint + " 1 \x00;", false},
 	{"stray-question", "lex", "?", false},
+	{"stray-rupee-sign", "lex", KwPrint + " \u09f3;", false},
+	{"stray-rupee-mark-ident", "lex", KwVar + " \u09f2 = 5;", false},
+	{"stray-currency-numerator", "lex", "\u09f4 + 1;", false},
+	{"stray-euro", "lex", KwPrint + " \u20ac5;", false},
 	{"number-too-large", "lex", KwPrint + " 1" + strings.Repeat("0", 400) + ";", false},
 	{"number-too-large-bangla", "lex", KwVar + " big = \u09e7" + strings.Repeat("\u09e6", 330) + ".5;", false},
 	{"missing-name", "syn", KwVar + " = 5;", false},
@@ -437,7 +441,7 @@ func c19ClassCase(s Src, tag string) *Case {
 			rtIdx = pos
 			// optionally also a front-end error later in the text: then nothing runs at all
 			if Bool(s, "second") {
-				e2 := c19Errors[s.Int("errkind2", 0, 23)]
+				e2 := c19Errors[s.Int("errkind2", 0, 27)]
 				body = append(body, ln{text: e2.text})
 				class = e2.class
 				errName += "+" + e2.name
